@@ -81,3 +81,233 @@ Proof.
   rewrite Hidx. rewrite takeN_length by (fold (vlen v); exact Hnb).
   replace (n <? idx + 8) with false by lia. reflexivity.
 Qed.
+
+(* ---- dubbo slow path: SetData(d), Encode, Decode again ----------------------------------------------------------- *)
+Lemma dubbo_pure_fields hess b f n : dubbo_pure hess b = Ok (f, n) ->
+  blen (x_magic f) = 2 /\ nth_num f 2 < U64 /\ length (x_nums f) = 8%nat /\
+  (negb (N.testbit (nth_num f 0) 5) && N.testbit (nth_num f 0) 7 = true -> N.land (nth_num f 0) 31 = 2).
+Proof.
+  unfold dubbo_pure. destruct (blen b <? dubbo_HeaderLen) eqn:E1; [discriminate|].
+  destruct (dubbo_HeaderLen + dubbo_plen b <=? blen b) eqn:E2; [|discriminate].
+  unfold dubbo_frame_pure.
+  destruct (l_sub _ dubbo_HeaderLen _) as [payload|]; [|discriminate].
+  assert (Hm : blen (sub b dubbo_MagicIdx dubbo_FlagIdx) = 2).
+  { rewrite sub_length; unfold dubbo_MagicIdx, dubbo_FlagIdx, dubbo_HeaderLen in *; lia. }
+  assert (Hid : be_decw (sub b dubbo_IdIdx (dubbo_IdIdx + dubbo_IdLen)) < U64).
+  { pose proof (be_decw_bound (sub b dubbo_IdIdx (dubbo_IdIdx + dubbo_IdLen))) as Hb.
+    rewrite sub_length in Hb by (unfold dubbo_IdIdx, dubbo_IdLen, dubbo_HeaderLen in *; lia).
+    replace (dubbo_IdIdx + dubbo_IdLen - dubbo_IdIdx) with 8 in Hb by reflexivity. exact Hb. }
+  set (flag := nth (N.to_nat dubbo_FlagIdx) b 0).
+  destruct (negb (N.testbit flag 5) && ((if N.testbit flag 7 then dubbo_EventRequest else dubbo_EventResponse) =? dubbo_EventRequest)) eqn:Ec.
+  - destruct (negb (N.land flag 31 =? 2)) eqn:Es; [discriminate|]. destruct (hess payload); [|discriminate].
+    intros H. inversion H; subst f. unfold nth_num. cbn [x_magic x_nums nth length]. repeat split; try assumption. intros _. lia.
+  - intros H. inversion H; subst f. unfold nth_num. cbn [x_magic x_nums nth length]. repeat split; try assumption.
+    intros Hq. exfalso. apply andb_true_iff in Hq. destruct Hq as [Hq1 Hq2]. rewrite Hq1, Hq2 in Ec. discriminate Ec.
+Qed.
+
+Ltac norm_nat := repeat match goal with |- context [N.to_nat ?n] =>
+  let v := eval vm_compute in (N.to_nat n) in change (N.to_nat n) with v end.
+
+Theorem dubbo_set_data_roundtrip : forall hess v f n d mem, res (dubbo_decode hess v) = Ok (f, n) ->
+  dubbo_HeaderLen + blen d < U32 ->
+  (negb (N.testbit (nth_num f 0) 5) && N.testbit (nth_num f 0) 7 = true -> hess d = true) ->
+  let out := dubbo_encode mem (dubbo_set_data true d (dubbo_set_id (nth_num f 2) f)) in
+  exists f', res (dubbo_decode hess (view_of out)) = Ok (f', blen out) /\
+    x_payload f' = d /\ nth_num f' 3 = blen d /\ nth_num f' 0 = nth_num f 0 /\ nth_num f' 1 = nth_num f 1 /\ nth_num f' 2 = nth_num f 2.
+Proof.
+  intros hess v f n d mem H Hlen Hh. rewrite dubbo_decode_eq, dubbo_res in H.
+  destruct (dubbo_pure_fields _ _ _ _ H) as [Hm [Hid [Hl Hser]]].
+  cbv zeta. rewrite dubbo_decode_eq, dubbo_res. cbn [view_of vb].
+  unfold dubbo_encode, dubbo_set_data, dubbo_set_id, set_num, nth_num in *. cbn [x_raw x_nums x_payload x_magic].
+  destruct (x_nums f) as [|flag [|status [|id [|dl [|ev [|tw [|dir [|ser [|]]]]]]]]] eqn:En; try (cbn in Hl; lia).
+  cbn [firstn skipn app nth] in *.
+  destruct (x_magic f) as [|m0 [|m1 [|]]] eqn:Em; try (unfold blen in Hm; cbn in Hm; lia).
+  cbn [firstn app].
+  rewrite (N.mod_small id) by exact Hid.
+  rewrite (N.mod_small (blen d)) by (unfold dubbo_HeaderLen in Hlen; lia).
+  set (out := m0 :: m1 :: flag :: status :: (be_enc 8 id ++ be_enc 4 (blen d) ++ d)).
+  assert (Hout : blen out = dubbo_HeaderLen + blen d).
+  { unfold out. rewrite !blen_cons, !blen_app, !be_enc_blen. unfold dubbo_HeaderLen. lia. }
+  assert (Hpl : dubbo_plen out = blen d).
+  { unfold dubbo_plen, out, dubbo_DataLenIdx, dubbo_DataLenSize.
+    change (be_enc 8 id) with [id / 256 / 256 / 256 / 256 / 256 / 256 / 256 mod 256; id / 256 / 256 / 256 / 256 / 256 / 256 mod 256;
+      id / 256 / 256 / 256 / 256 / 256 mod 256; id / 256 / 256 / 256 / 256 mod 256; id / 256 / 256 / 256 mod 256; id / 256 / 256 mod 256; id / 256 mod 256; id mod 256].
+    change (be_enc 4 (blen d)) with [blen d / 256 / 256 / 256 mod 256; blen d / 256 / 256 mod 256; blen d / 256 mod 256; blen d mod 256].
+    cbn [app]. unfold sub. norm_nat. cbn [skipn firstn].
+    change (be_decw (be_enc 4 (blen d)) = blen d). rewrite be_decw_enc. apply N.mod_small. change (256 ^ N.of_nat 4) with U32. unfold dubbo_HeaderLen in Hlen. lia. }
+  unfold dubbo_pure. rewrite Hout, Hpl.
+  replace (dubbo_HeaderLen + blen d <? dubbo_HeaderLen) with false by lia.
+  replace (dubbo_HeaderLen + blen d <=? dubbo_HeaderLen + blen d) with true by lia.
+  unfold dubbo_frame_pure. fold (dubbo_plen out). rewrite Hpl.
+  rewrite N.mod_small by exact Hlen.
+  assert (Hbody : sub out 0 (dubbo_HeaderLen + blen d) = out) by (rewrite <- Hout, sub_0; apply takeN_all).
+  rewrite Hbody, Hout.
+  assert (Hpay : l_sub out dubbo_HeaderLen (dubbo_HeaderLen + blen d) = Some d).
+  { rewrite l_sub_some by lia. f_equal.
+    change out with ((m0 :: m1 :: flag :: status :: be_enc 8 id ++ be_enc 4 (blen d)) ++ d).
+    assert (Hp : blen (m0 :: m1 :: flag :: status :: be_enc 8 id ++ be_enc 4 (blen d)) = dubbo_HeaderLen)
+      by (rewrite !blen_cons, !blen_app, !be_enc_blen; reflexivity).
+    rewrite <- Hp. rewrite <- blen_app. rewrite sub_as_take_drop, dropN_app_exact.
+    rewrite blen_app. replace (blen (m0 :: m1 :: flag :: status :: be_enc 8 id ++ be_enc 4 (blen d)) + blen d - blen (m0 :: m1 :: flag :: status :: be_enc 8 id ++ be_enc 4 (blen d))) with (blen d) by lia.
+    apply takeN_all. }
+  rewrite Hpay.
+  assert (Hflag : nth (N.to_nat dubbo_FlagIdx) out 0 = flag) by reflexivity.
+  assert (Hstatus : nth (N.to_nat dubbo_StatusIdx) out 0 = status) by reflexivity.
+  rewrite Hflag, Hstatus.
+  assert (Hidr : be_decw (sub out dubbo_IdIdx (dubbo_IdIdx + dubbo_IdLen)) = id).
+  { unfold out, dubbo_IdIdx, dubbo_IdLen.
+    change (be_enc 8 id) with [id / 256 / 256 / 256 / 256 / 256 / 256 / 256 mod 256; id / 256 / 256 / 256 / 256 / 256 / 256 mod 256;
+      id / 256 / 256 / 256 / 256 / 256 mod 256; id / 256 / 256 / 256 / 256 mod 256; id / 256 / 256 / 256 mod 256; id / 256 / 256 mod 256; id / 256 mod 256; id mod 256].
+    cbn [app]. unfold sub. norm_nat. cbn [skipn firstn].
+    change (be_decw (be_enc 8 id) = id). rewrite be_decw_enc. apply N.mod_small. exact Hid. }
+  rewrite Hidr.
+  destruct (negb (N.testbit flag 5) && ((if N.testbit flag 7 then dubbo_EventRequest else dubbo_EventResponse) =? dubbo_EventRequest)) eqn:Ec.
+  - assert (Hq : negb (N.testbit flag 5) && N.testbit flag 7 = true).
+    { apply andb_true_iff in Ec. destruct Ec as [E1 E2]. rewrite E1. destruct (N.testbit flag 7); [reflexivity|discriminate E2]. }
+    rewrite (Hser Hq). cbn [N.eqb Pos.eqb negb]. rewrite (Hh Hq).
+    eexists. split; [reflexivity|]. cbn [x_payload x_nums nth]. repeat split; reflexivity.
+  - eexists. split; [reflexivity|]. cbn [x_payload x_nums nth]. repeat split; reflexivity.
+Qed.
+
+(* ---- tars: Decode (Encode (packet)) relative to TarsGo's reader/writer law ------------------------------------------ *)
+Section TarsEncProofs.
+Variable pkt : Type.
+Variable jread : bool -> bytes -> option pkt.
+Variable jwrite : bool -> pkt -> bytes.
+Variable pid : pkt -> N.
+Variable stype : bytes -> N.
+
+(* premises (laws of the TarsGo library, validated by the harness on the real library):
+   L1  ReadFrom (WriteTo p) = p
+   L2  the tag-5 scan of a written request frame finds a string, of a written response frame an integer *)
+Definition tars_law_roundtrip : Prop := forall resp p, jread resp (jwrite resp p) = Some p.
+Definition tars_law_stype : Prop := forall resp p fr, fr = tars_encode pkt jwrite resp p ->
+  existsb (N.eqb (stype fr)) tars_resp_types = resp /\ existsb (N.eqb (stype fr)) tars_req_types = negb resp.
+
+Theorem tars_encode_decode : tars_law_roundtrip -> tars_law_stype -> forall resp p,
+  tars_MessageSizeLen + blen (jwrite resp p) <= tars_MaxPackageLength ->
+  let out := tars_encode pkt jwrite resp p in
+  res (tars_decode stype (tars_rparse pkt jread pid) (view_of out)) =
+    Ok ({| x_nums := [if resp then 1 else 0; pid p]; x_raw := Some (Private out); x_payload := out; x_magic := [] |}, blen out) /\
+  jread resp (dropN tars_MessageSizeLen out) = Some p.
+Proof.
+  intros L1 L2 resp p Hsz. cbv zeta. set (out := tars_encode pkt jwrite resp p).
+  assert (Hu : (tars_MessageSizeLen + blen (jwrite resp p)) mod U32 = tars_MessageSizeLen + blen (jwrite resp p)).
+  { apply N.mod_small. unfold tars_MaxPackageLength, U32 in *. lia. }
+  assert (Hlen : blen out = tars_MessageSizeLen + blen (jwrite resp p)).
+  { unfold out, tars_encode. rewrite blen_app, be_enc_blen. unfold tars_MessageSizeLen. lia. }
+  assert (Hn : tars_n out = tars_MessageSizeLen + blen (jwrite resp p)).
+  { unfold tars_n, out, tars_encode. rewrite Hu.
+    replace (0 + 4) with (blen (be_enc 4 (tars_MessageSizeLen + blen (jwrite resp p)))) by (rewrite be_enc_blen; reflexivity).
+    rewrite sub_0, takeN_app_exact, be_decw_enc. apply N.mod_small. change (256 ^ N.of_nat 4) with U32. unfold U32, tars_MaxPackageLength, tars_MessageSizeLen in *. lia. }
+  assert (Hdrop : dropN tars_MessageSizeLen out = jwrite resp p).
+  { unfold out, tars_encode. rewrite Hu.
+    replace tars_MessageSizeLen with (blen (be_enc 4 (tars_MessageSizeLen + blen (jwrite resp p)))) at 1 by (rewrite be_enc_blen; reflexivity).
+    apply dropN_app_exact. }
+  split; [|rewrite Hdrop; apply L1].
+  rewrite tars_res. cbn [view_of vb]. unfold tars_pure. rewrite Hn, Hlen.
+  replace (tars_MessageSizeLen + blen (jwrite resp p) <? tars_MessageSizeLen) with false by lia.
+  cbv zeta.
+  replace ((tars_MessageSizeLen + blen (jwrite resp p) <? 4) || (tars_MaxPackageLength <? tars_MessageSizeLen + blen (jwrite resp p))) with false
+    by (unfold tars_MessageSizeLen in *; lia).
+  replace (tars_MessageSizeLen + blen (jwrite resp p) <? tars_MessageSizeLen + blen (jwrite resp p)) with false by lia.
+  assert (Hfr : sub out 0 (tars_MessageSizeLen + blen (jwrite resp p)) = out) by (rewrite <- Hlen, sub_0; apply takeN_all).
+  rewrite Hfr. destruct (L2 resp p out eq_refl) as [Ha Hb]. rewrite Ha, Hb.
+  replace (resp || negb resp) with true by (destruct resp; reflexivity).
+  unfold tars_rparse. rewrite Hdrop, L1. cbn [option_map]. reflexivity.
+Qed.
+End TarsEncProofs.
+
+(* ---- dubbo-thrift slow path relative to the thrift library's reader/writer law ------------------------------------- *)
+Section ThriftEncProofs.
+Variable tparse : bytes -> option (N * N).
+Variable whdr : bytes -> N -> bytes.
+Variable mbegin : bytes -> option N.   (* ReadMessageBegin/End on a payload: the message type *)
+
+(* premise: reading what WriteString(service) ++ WriteI64(id) wrote, followed by a payload, gives the id and the
+   message type of the payload *)
+Definition thrift_law : Prop := forall svc id pl, id < U64 ->
+  tparse (whdr svc id ++ pl) = option_map (fun mt => (id, mt)) (mbegin pl).
+
+Theorem thrift_slow_roundtrip : thrift_law -> forall svc id payload mt,
+  id < U64 -> mbegin payload = Some mt ->
+  thrift_HeaderIdx + blen (whdr svc id) < U16 ->
+  thrift_MessageLenSize + thrift_HeaderIdx + blen (whdr svc id) + blen payload < U32 ->
+  let out := thrift_encode_slow whdr svc id payload in
+  exists f, res (thrift_decode tparse (view_of out)) = Ok (f, blen out) /\
+    x_payload f = payload /\ nth_num f 3 = id /\ nth_num f 2 = thrift_HeaderIdx + blen (whdr svc id) /\
+    nth_num f 0 = blen out /\ nth_num f 1 = blen out - thrift_MessageLenSize.
+Proof.
+  intros Law svc id payload mt Hid Hmb Hh Hm. cbv zeta.
+  set (lib := whdr svc id) in *. set (hlen := thrift_HeaderIdx + blen lib) in *. set (mlen := hlen + blen payload).
+  assert (Emlen : mlen mod U32 = mlen) by (apply N.mod_small; unfold mlen, hlen, thrift_MessageLenSize in *; lia).
+  assert (Ehlen : hlen mod U16 = hlen) by (apply N.mod_small; exact Hh).
+  unfold thrift_encode_slow. fold lib hlen mlen. rewrite Emlen, Ehlen.
+  set (msg := [thrift_Magic0; thrift_Magic1] ++ be_enc 4 mlen ++ be_enc 2 hlen ++ [1] ++ lib ++ payload).
+  assert (Hmsg : blen msg = mlen).
+  { unfold msg. rewrite !blen_app, !be_enc_blen. unfold mlen, hlen, thrift_HeaderIdx. cbn [blen length N.of_nat]. lia. }
+  set (out := be_enc 4 mlen ++ msg).
+  assert (Hout : blen out = thrift_MessageLenSize + mlen) by (unfold out; rewrite blen_app, be_enc_blen, Hmsg; reflexivity).
+  assert (Hml32 : mlen < U32) by (unfold mlen, hlen, thrift_MessageLenSize in *; lia).
+  assert (Hfl : thrift_fl out = mlen).
+  { unfold thrift_fl, out. replace (0 + thrift_MessageLenSize) with (blen (be_enc 4 mlen)) by (rewrite be_enc_blen; reflexivity).
+    rewrite sub_0, takeN_app_exact, be_decw_enc. apply N.mod_small. change (256 ^ N.of_nat 4) with U32. exact Hml32. }
+  rewrite thrift_res. cbn [view_of vb]. unfold thrift_pure. rewrite Hout, Hfl.
+  replace (thrift_MessageLenSize + mlen <? thrift_MessageLenSize + thrift_MagicLen) with false
+    by (unfold mlen, hlen, thrift_HeaderIdx, thrift_MagicLen; lia).
+  replace (thrift_MessageLenSize + mlen <=? thrift_MessageLenSize + mlen) with true by lia.
+  assert (Hd : sub out 0 (thrift_MessageLenSize + mlen) = out) by (rewrite <- Hout, sub_0; apply takeN_all).
+  rewrite Hd. unfold thrift_body_pure.
+  (* m4 *)
+  assert (H1 : l_sub out 0 thrift_MessageLenSize = Some (be_enc 4 mlen)).
+  { rewrite l_sub_some by (unfold thrift_MessageLenSize in *; lia). apply f_equal.
+    pose proof (takeN_app_exact (be_enc 4 mlen) msg) as X. rewrite <- sub_0 in X. exact X. }
+  rewrite H1. cbn [opt_or_recovered]. rewrite be_decw_enc. rewrite (N.mod_small mlen) by exact Hml32.
+  rewrite (N.mod_small (thrift_MessageLenSize + mlen)) by (unfold thrift_MessageLenSize in *; lia).
+  assert (H2 : l_sub out thrift_MessageLenSize (thrift_MessageLenSize + mlen) = Some msg).
+  { rewrite l_sub_some by lia. apply f_equal.
+    pose proof (sub_mid (be_enc 4 mlen) msg []) as X. rewrite app_nil_r, Hmsg in X. exact X. }
+  rewrite H2. cbn [opt_or_recovered].
+  rewrite (N.add_comm mlen). rewrite (N.mod_small (thrift_MessageLenSize + mlen)) by (unfold thrift_MessageLenSize in *; lia).
+  (* fixed positions inside msg *)
+  assert (Hshape : msg = thrift_Magic0 :: thrift_Magic1 :: (be_enc 4 mlen ++ be_enc 2 hlen ++ [1] ++ lib ++ payload)) by reflexivity.
+  assert (H3 : l_sub msg 0 thrift_MagicLen = Some [thrift_Magic0; thrift_Magic1]).
+  { rewrite l_sub_some by (unfold thrift_MagicLen, mlen, hlen, thrift_HeaderIdx in *; lia). rewrite Hshape. reflexivity. }
+  rewrite H3. cbn [opt_or_recovered].
+  assert (H4 : l_sub msg thrift_MessageLenIdx (thrift_MessageLenIdx + thrift_MessageLenSize) = Some (be_enc 4 mlen)).
+  { rewrite l_sub_some by (unfold thrift_MessageLenIdx, thrift_MessageLenSize, mlen, hlen, thrift_HeaderIdx in *; lia). apply f_equal.
+    exact (sub_mid [thrift_Magic0; thrift_Magic1] (be_enc 4 mlen) (be_enc 2 hlen ++ [1] ++ lib ++ payload)). }
+  rewrite H4. cbn [opt_or_recovered].
+  assert (H5 : l_sub msg thrift_MessageHeaderLenIdx (thrift_MessageHeaderLenIdx + thrift_MessageHeaderLenSize) = Some (be_enc 2 hlen)).
+  { rewrite l_sub_some by (unfold thrift_MessageHeaderLenIdx, thrift_MessageHeaderLenSize, mlen, hlen, thrift_HeaderIdx in *; lia). apply f_equal.
+    pose proof (sub_mid ([thrift_Magic0; thrift_Magic1] ++ be_enc 4 mlen) (be_enc 2 hlen) ([1] ++ lib ++ payload)) as X.
+    rewrite <- app_assoc in X. exact X. }
+  rewrite H5. cbn [opt_or_recovered]. rewrite be_decw_enc. rewrite (N.mod_small hlen) by exact Hh.
+  assert (H6 : l_sub out 0 (thrift_MessageLenSize + mlen) = Some out).
+  { rewrite l_sub_some by lia. f_equal; try (exact Hd). }
+  rewrite H6. cbn [opt_or_recovered]. rewrite Hmsg.
+  assert (Hpre : msg = ([thrift_Magic0; thrift_Magic1] ++ be_enc 4 mlen ++ be_enc 2 hlen ++ [1] ++ lib) ++ payload).
+  { unfold msg. rewrite <- !app_assoc. reflexivity. }
+  assert (Hprel : blen ([thrift_Magic0; thrift_Magic1] ++ be_enc 4 mlen ++ be_enc 2 hlen ++ [1] ++ lib) = hlen).
+  { rewrite !blen_app, !be_enc_blen. unfold hlen, thrift_HeaderIdx. cbn [blen length N.of_nat]. lia. }
+  assert (H7 : l_sub msg hlen mlen = Some payload).
+  { rewrite l_sub_some by (unfold mlen; lia). apply f_equal.
+    pose proof (sub_mid ([thrift_Magic0; thrift_Magic1] ++ be_enc 4 mlen ++ be_enc 2 hlen ++ [1] ++ lib) payload []) as X.
+    rewrite app_nil_r, Hprel in X. rewrite <- Hpre in X. exact X. }
+  rewrite H7. cbn [opt_or_recovered].
+  assert (H8 : l_sub msg thrift_HeaderIdx mlen = Some (lib ++ payload)).
+  { rewrite l_sub_some by (unfold mlen, hlen; lia). apply f_equal.
+    pose proof (sub_mid ([thrift_Magic0; thrift_Magic1] ++ be_enc 4 mlen ++ be_enc 2 hlen ++ [1]) (lib ++ payload) []) as X.
+    rewrite app_nil_r in X.
+    replace (blen ([thrift_Magic0; thrift_Magic1] ++ be_enc 4 mlen ++ be_enc 2 hlen ++ [1])) with thrift_HeaderIdx in X by reflexivity.
+    replace (thrift_HeaderIdx + blen (lib ++ payload)) with mlen in X by (rewrite blen_app; unfold mlen, hlen; lia).
+    replace (([thrift_Magic0; thrift_Magic1] ++ be_enc 4 mlen ++ be_enc 2 hlen ++ [1]) ++ lib ++ payload) with msg in X
+      by (unfold msg; rewrite <- !app_assoc; reflexivity).
+    exact X. }
+  rewrite H8. cbn [opt_or_recovered].
+  unfold lib. rewrite (Law svc id payload Hid), Hmb. cbn [option_map res ret fst].
+  eexists. split; [reflexivity|]. unfold nth_num. cbn [x_payload x_nums nth].
+  rewrite be_decw_enc, (N.mod_small mlen) by exact Hml32. fold lib hlen.
+  repeat split; try reflexivity; lia.
+Qed.
+End ThriftEncProofs.
